@@ -405,6 +405,7 @@ func c12(r *core.Run) {
 	if gc == nil || pu == nil {
 		return
 	}
+	removalListRule(r, "C12.G4")
 	reach := lsReach(w, gc)
 	var fs []*ssa.Function
 	for f := range reach {
